@@ -279,3 +279,90 @@ VK(to_lower_ascii) {
   bool r = ada::unicode::to_lower_ascii(reinterpret_cast<char*>(out), n < cap ? n : cap);
   return r;
 }
+
+// ---------------------------------------------------------------- url_aggregator as a state (C03, C07, C09, C17, C19)
+// in  = [ 8 x u32 LE offsets | type | has_opaque_path | host_type | L ] [ buffer (L bytes) ] [ value (n-36-L bytes) ]
+// out = same header + buffer of the post-state ; return = rv | validate<<8 | post_L<<16 | is_valid<<32
+#define VK_HDR 36
+#ifndef VK_RESERVE
+#define VK_RESERVE 0
+#endif
+static inline void vk_load(ada::url_aggregator& u, const uint8_t* in) {
+  auto rd = [&](int i) { return uint32_t(in[4 * i]) | (uint32_t(in[4 * i + 1]) << 8) | (uint32_t(in[4 * i + 2]) << 16) | (uint32_t(in[4 * i + 3]) << 24); };
+  if (VK_RESERVE) u.buffer.reserve(VK_RESERVE);
+  u.buffer.assign(reinterpret_cast<const char*>(in + VK_HDR), in[35]);
+  u.components.protocol_end = rd(0); u.components.username_end = rd(1); u.components.host_start = rd(2);
+  u.components.host_end = rd(3); u.components.port = rd(4); u.components.pathname_start = rd(5);
+  u.components.search_start = rd(6); u.components.hash_start = rd(7);
+  u.type = ada::scheme::type(in[32]); u.has_opaque_path = in[33] != 0; u.host_type = ada::url_host_type(in[34]);
+  u.is_valid = true;
+}
+static inline uint64_t vk_save(const ada::url_aggregator& u, uint8_t* out, uint64_t cap, uint64_t rv) {
+  vk_put_u32(out + 0, u.components.protocol_end); vk_put_u32(out + 4, u.components.username_end);
+  vk_put_u32(out + 8, u.components.host_start); vk_put_u32(out + 12, u.components.host_end);
+  vk_put_u32(out + 16, u.components.port); vk_put_u32(out + 20, u.components.pathname_start);
+  vk_put_u32(out + 24, u.components.search_start); vk_put_u32(out + 28, u.components.hash_start);
+  out[32] = uint8_t(u.type); out[33] = u.has_opaque_path; out[34] = uint8_t(u.host_type);
+  uint64_t L = u.buffer.size();
+  out[35] = uint8_t(L);
+  vk_put(out + VK_HDR, cap - VK_HDR, u.buffer);
+  return (rv & 0xff) | (uint64_t(u.validate()) << 8) | (L << 16) | (uint64_t(u.is_valid) << 32);
+}
+#define VK_VALUE std::string_view(reinterpret_cast<const char*>(in + VK_HDR + in[35]), n - VK_HDR - in[35])
+#define VK_STEP(name, call)                \
+  VK(st_##name) {                          \
+    UNUSED;                                \
+    ada::url_aggregator u;                 \
+    vk_load(u, in);                        \
+    uint64_t rv = 1;                       \
+    call;                                  \
+    return vk_save(u, out, cap, rv);       \
+  }
+VK_STEP(validate, (void)0)
+VK_STEP(clear_port, u.clear_port())
+VK_STEP(clear_hash, u.clear_hash())
+VK_STEP(clear_search, u.clear_search())
+VK_STEP(clear_pathname, u.clear_pathname())
+VK_STEP(clear_hostname, u.clear_hostname())
+VK_STEP(clear_password, u.clear_password())
+VK_STEP(update_base_username, u.update_base_username(VK_VALUE))
+VK_STEP(append_base_username, u.append_base_username(VK_VALUE))
+VK_STEP(update_base_password, u.update_base_password(VK_VALUE))
+VK_STEP(append_base_password, u.append_base_password(VK_VALUE))
+VK_STEP(update_base_hostname, u.update_base_hostname(VK_VALUE))
+VK_STEP(update_base_pathname, u.update_base_pathname(VK_VALUE))
+VK_STEP(append_base_pathname, u.append_base_pathname(VK_VALUE))
+VK_STEP(update_base_search, u.update_base_search(VK_VALUE))
+VK_STEP(update_unencoded_base_hash, u.update_unencoded_base_hash(VK_VALUE))
+VK_STEP(update_base_port, u.update_base_port(uint32_t(p0)))
+VK_STEP(add_authority_slashes, u.add_authority_slashes_if_needed())
+VK_STEP(delete_dash_dot, u.delete_dash_dot())
+VK_STEP(set_scheme, u.set_scheme(VK_VALUE))
+VK_STEP(set_scheme_with_colon, u.set_scheme_from_view_with_colon(VK_VALUE))
+VK_STEP(set_protocol_as_file, u.set_protocol_as_file())
+VK_STEP(set_protocol, rv = u.set_protocol(VK_VALUE))
+VK_STEP(set_username, rv = u.set_username(VK_VALUE))
+VK_STEP(set_password, rv = u.set_password(VK_VALUE))
+VK_STEP(set_port, rv = u.set_port(VK_VALUE))
+VK_STEP(set_pathname, rv = u.set_pathname(VK_VALUE))
+VK_STEP(set_search, u.set_search(VK_VALUE))
+VK_STEP(set_hash, u.set_hash(VK_VALUE))
+VK_STEP(set_host, rv = u.set_host(VK_VALUE))
+VK_STEP(set_hostname, rv = u.set_hostname(VK_VALUE))
+
+// parse a URL string (in[0..n)) with the real parser; p0 != 0: the first p0 bytes are the base.  out = state (see above)
+VK(parse_state) {
+  UNUSED;
+  ada::result<ada::url_aggregator> r;
+  if (p0) {
+    auto b = ada::parse<ada::url_aggregator>(std::string_view(reinterpret_cast<const char*>(in), p0));
+    if (!b) return 0;
+    r = ada::parse<ada::url_aggregator>(std::string_view(reinterpret_cast<const char*>(in + p0), n - p0), &*b);
+  } else {
+    r = ada::parse<ada::url_aggregator>(SV);
+  }
+  if (!r) return 0;
+  if (r->buffer.size() + VK_HDR > cap || r->buffer.size() > 255) return 2;
+  vk_save(*r, out, cap, 1);
+  return 1 | (uint64_t(r->buffer.size()) << 16);
+}
